@@ -123,6 +123,47 @@ impl<'a> Hist<'a> {
         name
     }
 
+    /// "many blocks later": the content of the sealed state `src` (coins, pools, fee pool, multiplier, speed, stakes)
+    /// as a sealed state at the later height `height`, with the stake-set OBJECT of `src` carried along (a chain that ran
+    /// on would still hold it), and one synthetic previous header.  For the model this is an ordinary fabricated state.
+    pub fn op_warp(&mut self, src: &str, height: u64) -> String {
+        let s = self.w.sealed.get(src).unwrap().clone();
+        let p = s.verif_inner().verif_parts();
+        let coins_map = melstf::CoinMapping::new(p.coins.clone());
+        let mut coins: Vec<(CoinID, CoinDataHeight)> = self.w.names.coins.values().filter_map(|id| coins_map.get_coin(*id).map(|c| (*id, c))).collect();
+        coins.sort_by_key(|c| (c.0.txhash.0 .0, c.0.index));
+        coins.dedup_by_key(|c| c.0);
+        let pools_map: melstf::SmtMapping<Cas, PoolKey, PoolState> = melstf::SmtMapping::new(p.pools.clone());
+        let mut pools: Vec<(PoolKey, PoolState)> = vec![];
+        for k in self.w.names.poolkeys.clone() {
+            if let Some(ps) = pools_map.get(&k) {
+                if !pools.iter().any(|(q, _)| crate::statefmt::poolkey_bytes(q) == crate::statefmt::poolkey_bytes(&k)) {
+                    pools.push((k, ps));
+                }
+            }
+        }
+        let mut stakes: Vec<(TxHash, StakeDoc)> = p.stakes.iter().map(|(k, d)| (*k, *d)).collect();
+        stakes.sort_by_key(|e| e.0 .0 .0);
+        let spec = FabSpec {
+            network: p.network,
+            height,
+            fee_pool: p.fee_pool.0,
+            fee_multiplier: p.fee_multiplier,
+            dosc_speed: p.dosc_speed,
+            coins,
+            pools,
+            stakes,
+            history: vec![(height - 1, p.dosc_speed)],
+        };
+        let name = self.w.fresh("s");
+        let (sealed, text) = self.w.fabricate_with(&spec, Some(p.stakes.clone()));
+        let dump = dump_unsealed(sealed.verif_inner(), &self.w.names);
+        self.out.emit(&format!("fab {} {}", name, text), &format!("ok {}", dump));
+        self.w.sealed.insert(name.clone(), sealed);
+        self.bump("op:warp");
+        name
+    }
+
     pub fn op_genesis(&mut self, cfg: GenesisConfig) -> String {
         let name = self.w.fresh("u");
         let (st, text) = self.w.genesis(cfg);
@@ -187,6 +228,10 @@ impl<'a> Hist<'a> {
             self.bump(&format!("txkind:{:02x}", k));
         }
         let approvals = self.w.approvals.clone();
+        for (o, i) in std::mem::take(&mut self.w.env_lines) {
+            self.out.emit(&o, &i);
+            self.bump("op:env");
+        }
         match res {
             Ok(Ok(())) => {
                 let dump = dump_unsealed(&st, &self.w.names);
@@ -215,6 +260,9 @@ impl<'a> Hist<'a> {
                     && silent(|| st.clone().seal(None).header()).ok() == silent(|| s.clone().seal(None).header()).ok();
                 self.out.fact("C02", "reject-noop", same, err_text(&e));
                 self.batch_order_facts(&s, txs, None);
+                // a node keeps using the state it offered the batch to: whatever a rejected batch left behind in it
+                // is what later operations on `src` run against (the model's `src` is unchanged by a rejection)
+                self.w.unsealed.insert(src.to_string(), st);
                 self.bump(&format!("batch-err:{}:{}", label, err_text(&e)));
                 None
             }
@@ -1497,6 +1545,120 @@ fn script_many_inputs(h: &mut Hist, r: &mut Rng) {
     h.bump("history:many-inputs-script");
 }
 
+
+/// A scripted block whose fees add up to more than a u128 holds: 254..=258 faucet transactions each paying the largest
+/// representable fee (2^120).  Fee pool and tips saturate per transaction; summing first and splitting afterwards, or
+/// summing in a different grouping, gives different tips once the total passes 2^128.  Applied as one batch, in two
+/// halves and one at a time; sealed without a proposer action (paying out saturated tips is outside the supply premise).
+fn script_fee_saturation(h: &mut Hist, r: &mut Rng) {
+    let a0 = h.wallet.spec_addr(CovSpec::StdNew(0));
+    let cfg = GenesisConfig {
+        network: *r.pick(&[NetID::Custom02, NetID::Custom08, NetID::Testnet]),
+        init_coindata: crate::txgen::out(a0, 1u128 << 40, Denom::Mel),
+        stakes: BTreeMap::new(),
+        init_fee_pool: CoinValue(*r.pick(&[0u128, 1 << 30])),
+        init_fee_multiplier: *r.pick(&[1u128 << 16, 1 << 20, 1, 0]),
+    };
+    let u0 = h.op_genesis(cfg);
+    let n = 254 + r.below(5) as usize;
+    let mut all = vec![];
+    for i in 0..n {
+        let tx = Transaction {
+            kind: TxKind::Faucet,
+            inputs: vec![],
+            outputs: if i % 7 == 0 { vec![crate::txgen::out(a0, 1 + i as u128, Denom::Mel)] } else { vec![] },
+            fee: CoinValue(1u128 << 120),
+            covenants: vec![],
+            data: vec![(i % 251) as u8, (i / 251) as u8, 0x5a].into(),
+            sigs: vec![],
+        };
+        h.w.names.reg_tx(&tx);
+        all.push(tx);
+    }
+    let mut ends: Vec<(String, String)> = vec![];
+    // the whole block at once
+    if let Some(u) = h.op_batch(&u0, &all, "feesat:one-batch") {
+        ends.push(("one batch".into(), dump_unsealed(h.w.unsealed.get(&u).unwrap(), &h.w.names)));
+        let _ = h.op_seal(&u, None);
+    }
+    // in two halves
+    let (a, b) = all.split_at(n / 2);
+    if let Some(u) = h.op_batch(&u0, a, "feesat:first-half") {
+        if let Some(u) = h.op_batch(&u, b, "feesat:second-half") {
+            ends.push(("two halves".into(), dump_unsealed(h.w.unsealed.get(&u).unwrap(), &h.w.names)));
+            let _ = h.op_seal(&u, None);
+        }
+    }
+    // the last few one at a time on top of the rest
+    let (a, b) = all.split_at(n - 4);
+    if let Some(mut u) = h.op_batch(&u0, a, "feesat:all-but-four") {
+        for tx in b {
+            match h.op_batch(&u, &[tx.clone()], "feesat:single") {
+                Some(nu) => u = nu,
+                None => return,
+            }
+        }
+        ends.push(("all but four, then one at a time".into(), dump_unsealed(h.w.unsealed.get(&u).unwrap(), &h.w.names)));
+        let _ = h.op_seal(&u, None);
+    }
+    // C03: the same transactions give the same state however they are grouped into batches
+    if ends.len() >= 2 {
+        let differing: Vec<String> = ends.iter().skip(1).filter(|e| e.1 != ends[0].1).map(|e| format!("'{}' differs from '{}'", e.0, ends[0].0)).collect();
+        h.out.fact("C03", "batch-equals-sequential", differing.is_empty(), &format!("{} max-fee faucets: {}", n, differing.join("; ")));
+    }
+    h.bump("history:fee-saturation-script");
+}
+
+
+/// A scripted block whose swap requests against one builtin pool add up to exactly 2^128 on one side (256 coins of
+/// 2^120, minted by faucets the block before; 255 as the control): the request total saturates at u128::MAX, every
+/// request is still paid its floor share, the reserves move by exactly what the requests brought and took.
+fn script_swap_saturation(h: &mut Hist, r: &mut Rng) {
+    let at = h.wallet.spec_addr(CovSpec::AlwaysTrue);
+    let cfg = GenesisConfig {
+        network: *r.pick(&[NetID::Custom02, NetID::Custom08]),
+        init_coindata: crate::txgen::out(at, 1u128 << 40, Denom::Mel),
+        stakes: BTreeMap::new(),
+        init_fee_pool: CoinValue(0),
+        init_fee_multiplier: 0,
+    };
+    let u0 = h.op_genesis(cfg);
+    let (denom, key) = if r.chance(1, 2) { (Denom::Sym, PoolKey::new(Denom::Mel, Denom::Sym)) } else { (Denom::Erg, PoolKey::new(Denom::Mel, Denom::Erg)) };
+    let n = *r.pick(&[256usize, 256, 255]);
+    let mut mints = vec![];
+    for i in 0..n {
+        let tx = Transaction {
+            kind: TxKind::Faucet,
+            inputs: vec![],
+            outputs: vec![crate::txgen::out(at, 1u128 << 120, denom), crate::txgen::out(at, 1000, Denom::Mel)],
+            fee: CoinValue(0),
+            covenants: vec![],
+            data: vec![(i % 251) as u8, (i / 251) as u8, 0xa5].into(),
+            sigs: vec![],
+        };
+        h.w.names.reg_tx(&tx);
+        mints.push(tx);
+    }
+    let Some(u1) = h.op_batch(&u0, &mints, "swapsat:mint") else { return };
+    let Some(s1) = h.op_seal(&u1, None) else { return };
+    let Some(u2) = h.op_next(&s1) else { return };
+    let height = h.parts(&u2).height;
+    let mut swaps = vec![];
+    for (i, m) in mints.iter().enumerate() {
+        let c = WCoin { id: m.output_coinid(0), cdh: CoinDataHeight { coin_data: m.outputs[0].clone(), height: BlockHeight(height.0 - 1) }, spec: CovSpec::AlwaysTrue };
+        // every transaction needs a MEL input (the fee, even a zero one, is balanced against it)
+        let c2 = WCoin { id: m.output_coinid(1), cdh: CoinDataHeight { coin_data: m.outputs[1].clone(), height: BlockHeight(height.0 - 1) }, spec: CovSpec::AlwaysTrue };
+        let tx = assemble(&h.wallet, TxKind::Swap, &[c, c2], vec![crate::txgen::out(at, 1u128 << 120, denom), crate::txgen::out(at, 1000, Denom::Mel)], 0, key.to_bytes().to_vec());
+        let _ = i;
+        h.w.names.reg_tx(&tx);
+        swaps.push(tx);
+    }
+    // a small request on the other side as well, so that both directions settle in the block
+    let Some(u3) = h.op_batch(&u2, &swaps, "swapsat:requests") else { return };
+    let _ = h.op_seal(&u3, None);
+    h.bump("history:swap-saturation-script");
+}
+
 /// one history
 pub fn history(r: &mut Rng, w: &mut World, out: &mut Out, em: &Emphasis, stats: &mut BTreeMap<String, u64>) {
     let mut h = Hist { w, wallet: Wallet::new(), out, stats: BTreeMap::new(), faucets_seen: vec![], pending_spenders: vec![], spent_in_block: vec![], stake_txs: vec![], sealed_headers: vec![] };
@@ -1524,6 +1686,14 @@ fn history_body(h: &mut Hist, r: &mut Rng, em: &Emphasis) {
     }
     if em.faucets >= 30 && r.chance(1, 25) {
         script_faucet_across_activation(h, r);
+        return;
+    }
+    if (em.mutate == 300 || em.faucets >= 30) && r.chance(1, 30) {
+        script_fee_saturation(h, r);
+        return;
+    }
+    if em.pool_ops >= 30 && r.chance(1, 30) {
+        script_swap_saturation(h, r);
         return;
     }
     // starting point
@@ -1625,6 +1795,30 @@ fn history_body(h: &mut Hist, r: &mut Rng, em: &Emphasis) {
                             }
                             None => break,
                         }
+                    }
+                }
+            }
+        }
+        // many blocks later: when the sealed state holds stakes, jump - with the very same stake-set object - to one or
+        // two blocks before the epoch in which one of them starts or expires, and carry on from there
+        if em.stake_ops >= 8 && r.chance(1, if em.stake_ops >= 60 { 3 } else { 10 }) {
+            let mut docs: Vec<StakeDoc> = h.w.sealed.get(&sealed).unwrap().raw_stakes().iter().map(|(_, d)| *d).collect();
+            // the set iterates in a per-process order: the choice below must not depend on it
+            docs.sort_by_key(|d| (d.e_start, d.e_post_end, d.syms_staked.0, d.pubkey.0));
+            if !docs.is_empty() {
+                let d = docs[r.below(docs.len() as u64) as usize];
+                let target_epoch = if r.chance(2, 3) { d.e_post_end.saturating_add(1) } else { d.e_start };
+                let th = target_epoch.saturating_mul(200_000);
+                if th > height + 4 && th < 4_000_000_000 {
+                    let w = h.op_warp(&sealed, th - 1 - r.below(2));
+                    grandparent = None;
+                    parent = Some(w.clone());
+                    match h.op_next(&w) {
+                        Some(u) => {
+                            unsealed = u;
+                            continue;
+                        }
+                        None => break,
                     }
                 }
             }
